@@ -311,6 +311,12 @@ def run(ctx):
                         dup.rule_blocks[0].rules[0].weight = rule.weight
                     source, engine, rule = engine, dup, dup.rule_blocks[0].rules[0]
                     ctx.hit("route:rule of a duplicated engine (" + how + ")")
+                    # ... whose terms are then tuned (their heights): the duplicate's rule reads the duplicate's terms as they are
+                    for v in dup.variables:
+                        for t in v.terms:
+                            if rnd.random() < 0.5:
+                                t.height = rnd.choice([0.5, 0.25, 0.75])
+                    ctx.hit("event:terms of the duplicated engine tuned after the duplication")
                 except Exception as ex:
                     ctx.hit("inconclusive:engine could not be duplicated:" + type(ex).__name__)
                     engine.rule_blocks.clear()
@@ -371,6 +377,23 @@ def run(ctx):
                     rule.activate_with(conj, disj)
                 except Exception:
                     pass
+            # a term of an input variable is replaced by a new object of the same name (another height) and the rule is loaded again:
+            # the rule is about the term the variable holds now
+            if i % 3 == 2 and rule.is_loaded():
+                for v in engine.input_variables:
+                    if v.terms:
+                        k = rnd.randrange(len(v.terms))
+                        fresh_term = copy.copy(v.terms[k])
+                        fresh_term.height = rnd.choice([0.5, 0.25, 0.125])
+                        v.terms[k] = fresh_term
+                try:
+                    rule.load(engine)
+                    for v, x in zip(engine.input_variables, rows[1]):
+                        v.value = x
+                    rule.activate_with(conj, disj)
+                    ctx.hit("event:term replaced by a same-named object, rule loaded again")
+                except Exception:
+                    pass
             # the loaded expression is edited after it was evaluated: the hedges of a proposition reordered / replaced in place (the
             # list keeps its length); the next evaluation reads the hedges as they are now
             live = live_propositions(fl, rule.antecedent.expression)
@@ -401,6 +424,7 @@ def run(ctx):
                 ctx.sample("antecedent", {"text": rule_text, "postfix": E.tree_postfix(tree), "conjunction": tname, "disjunction": sname, "row": rows[0], "degree": rule.activation_degree})
         probe.report(ctx)
         reach.report(ctx)
+    ctx.require("event:term replaced by a same-named object, rule loaded again", "event:terms of the duplicated engine tuned after the duplication")
     ctx.require("event:two batches of the same size in a row", "event:fuzzy output emptied and refilled in place between two evaluations", "law:values handed out earlier are left alone", *[f"environment:{e}" for e in ENVIRONMENTS])
     ctx.require("hook:Rule.activate_with", "hook:Antecedent.load", "compare:degree (generator tree)", "compare:postfix (generator tree)", "discriminates:swapped precedence", "discriminates:right associativity", "discriminates:hedge order", "piece:any", "piece:disabled variable", "piece:output variable proposition", "piece:weight", "shape:mixes and/or", "event:rule object reused for another text", "event:a loaded rule is given a text that is rejected", "shape:chain of more than 32 operands", "event:loaded rule given another text and loaded again through its rule block", "event:fuzzy output holds an activation of an equal-named copy of a term", "event:hedges of a loaded proposition edited in place after an evaluation", "route:rule of a duplicated engine (copy)", "route:rule of a duplicated engine (deepcopy)", "route:rule of a duplicated engine (fll)", "input:2-D block of values per variable")
 
